@@ -3,7 +3,8 @@
 (* C19 - HTTP push.  One push subscription, a set of messages, an endpoint *)
 (* that answers each push with a response class.  The pusher keeps an      *)
 (* adaptive window w (AIMD: +1 per fast success, -1 per slow success,      *)
-(* -10 per failure, clamped to 1..WCap; 1000 in the implementation).       *)
+(* -Dec per failure (Dec = 10), clamped to 1..WCap; 1000 in the            *)
+(* implementation).  The lower clamp matters exactly when w = k * Dec.     *)
 (*                                                                         *)
 (*   state of a message:  "due" -> (Push) "flight" -> (Respond)            *)
 (*        success -> "acked"  (never pushed again)                         *)
@@ -15,7 +16,7 @@
 (***************************************************************************)
 EXTENDS Integers, Sequences, FiniteSets, TLC, Json
 
-CONSTANTS Msgs, WCap, MaxAtt, Classes, Scripts
+CONSTANTS Msgs, WCap, Dec, Slack, MaxAtt, Classes, Scripts   \* Dec: window decrease per failure (10 in the implementation)
 
 SuccessCodes == {200, 201, 202, 204}
 IsSuccessClass(c) == c \in {"ok", "okslow"}
@@ -43,7 +44,7 @@ Respond(m) ==
      /\ st' = [st EXCEPT ![m] = IF IsSuccessClass(c) THEN "acked" ELSE "backoff"]
      /\ w' = CASE c = "ok" -> IF w < WCap THEN w + 1 ELSE w
                [] c = "okslow" -> IF w > 1 THEN w - 1 ELSE 1
-               [] OTHER -> IF w > 10 THEN w - 10 ELSE 1
+               [] OTHER -> IF w > Dec - Slack THEN w - Dec ELSE 1   \* Slack = 1: a wrong lower clamp (non-vacuity variant)
   /\ UNCHANGED <<att, script, pushedAfterAck>>
 
 Retry(m) == st[m] = "backoff" /\ st' = [st EXCEPT ![m] = "due"] /\ UNCHANGED <<att, w, script, pushedAfterAck>>
